@@ -51,7 +51,7 @@ CLAIMED["C05"] = {
     "technique": "Coq proof (induction over update/chunk lists; all-schedule invariant for the shared words) + bit-exact correspondence incl. hook-driven interleavings",
 }
 CLAIMED["C08"] = {
-    "text": "Coq theorems, closed under the global context, over a step-level model of ResourceController/ResourceStorage/SelfReferentialResourceStorage + atomic-arena + the new/unused rings, for EVERY capacity (0 included), both storage variants and EVERY interleaving of gameplay-thread and audio-thread atomic steps: an inductive invariant (no panic reachable; alive+queued+reserved <= capacity; unused ring never full; free list exact; generations agree; each payload in exactly one place); exact capacity accounting and limit error iff count = capacity; prompt removal at the next callback (the one after if still queued); payloads destroyed only on the caller's thread, at most once; no stale ids (a reused slot carries a larger generation). F2 (capacity 0) and F27 (unused-ring overflow race) were found by these proofs, repaired by fix commits and are pinned as regressions. Correspondence: generated create/mark/callback histories on all eight storages of a real AudioManager incl. hook-driven interleavings at the removal/push window, plus a two-thread stress with monitors.",
+    "text": "Coq theorems, closed under the global context, over a step-level model of ResourceController/ResourceStorage/SelfReferentialResourceStorage + atomic-arena + the new/unused rings, for EVERY capacity (0 included), both storage variants and EVERY interleaving of gameplay-thread and audio-thread atomic steps: an inductive invariant (no panic reachable; alive+queued+reserved <= capacity; unused ring never full; free list exact; generations agree; each payload in exactly one place); exact capacity accounting and limit error iff count = capacity; prompt removal at the next callback (the one after if still queued); payloads destroyed only on the caller's thread, at most once; no stale ids (a reused slot carries a larger generation). F2 (capacity 0) and F27 (unused-ring overflow race) were found by these proofs, repaired by fix commits and are pinned as regressions. Correspondence: generated create/mark/callback histories on all eight storages of a real AudioManager incl. hook-driven interleavings at the removal/push window, plus a two-thread stress with monitors. Failed creations are part of every schedule: a creation failing BEFORE the reservation (into_sound error) changes nothing and is erasable from any history; a failure AFTER the reservation leaks exactly one slot (leak_accounting, reserve_then_fail_refuted; call-site table in Model.v); harness: failing SoundData / decoders / panicking builders on 12 storage kinds, stale ids through Parameter and when_to_start.",
     "design_ref": "DESIGN.md section 5 C08",
     "technique": "Coq proof (inductive invariant over all interleavings of a step-level model) + correspondence with the real storages (hook-driven schedules)",
 }
@@ -84,6 +84,12 @@ CLAIMED["C18"] = {
     "text": "Coq theorems: WAV encode/decode round trip for every spec of the modelled subset (six encodings, any channels, any rate, any in-range frames); static load = specified conversion frame by frame (mono duplicated, >2 channels error); truncation gives a valid prefix or an error; the 8/16/24-bit sample conversions are exact, in [-1,1), strictly monotone and injective in binary32; frame_at_index / the decode scheduler return frame i of the audio for ANY conforming decoder (any packet sizes, any seek-landing function), ANY start position and ANY history of seeks (streaming = loading). Correspondence: generated WAV files, truncations and corruptions loaded by StaticSoundData::from_cursor (symphonia) and compared sample-for-sample with the reference decoder; streaming playback of the repo's wav/ogg assets vs static load from any start and after seek sequences. Known findings F25 (WAV with sample rate 0 panics), F26 (ogg stream seek misaligned). Partial: the compressed codecs (ogg/mp3/flac) are outside the model; they are compared implementation-vs-implementation only.",
     "design_ref": "DESIGN.md section 5 C18",
     "technique": "Coq proof (round trip, exact conversions via Flocq, scheduler refinement for all decoders/seek histories) + correspondence with symphonia on generated files",
+}
+
+CLAIMED["C14"] = {
+    "text": "Coq theorems over R and Coquelicot's C (stdlib real axioms), for all inputs and run lengths, relating the C13 effect models (which C13 ties bit-for-bit to the code) to INDEPENDENT textbook specifications: volume and panning apply the decibel and equal-power laws; distortion is the hard/soft clip curve around the drive with |out-x| <= d x^2; the filter and EQ answer every sinusoid with the bilinear-transformed Simper / cookbook prototypes (unity pass bands, 1/k resp. 10^(dB/20) at the requested hertz at any rate, for fs/10000 <= fc < fs/2); the delay returns g^k FX^k(x) at k*floor(delay*rate) frames for every linear time-invariant loop (instantiated for volume/pan/filter/EQ chains; line length = exact floor, F35 repaired); the reverb model equals the Freeverb network (delay-line-history form) for any arithmetic, and each comb decays geometrically for feedback, damping < 1; the compressor follows o + s^n (e0 - o) with s = exp(-dt/tau) and converges to (L-thr)(1/ratio-1) dB. Correspondence: bit-exact binary32 cases for laws, delay impulse responses and Freeverb; measured sine/impulse responses of the real filters, EQs, reverb and compressor against the spec formulas (1e-3 relative / 0.02 dB), the harness's own reference formulas checked against the Coq prototypes in exact rational arithmetic. Known finding F42 (cutoff clamped at fs/10000). Partial: float rounding, SVF transients, the all-pass tail and libm are measured, not proved.",
+    "design_ref": "DESIGN.md section 5 C14",
+    "technique": "Coq proof over R / C of the C13 effect models against independent transfer-function specifications + bit-exact and measured-response correspondence",
 }
 REASON_WIP = "check not built yet in this session (work in progress; planned per DESIGN.md section 5)"
 
